@@ -126,6 +126,12 @@ func variant(g *sqlh.Gen, seed Case) Case {
 			}
 			c.Filters = append(c.Filters, f)
 			c.Callers = append(c.Callers, genCaller(g))
+		case k < 14 && len(c.Filters) > 0 && g.R.Bool(): // a caller with the boundary-shifted tuple of another one
+			if sf, ok := shiftFilter(g, t, c.Filters[g.R.Intn(len(c.Filters))]); ok {
+				c.Filters = append(c.Filters, sf)
+				c.Callers = append(c.Callers, Caller{})
+				rowFor(g, t, &c, sf)
+			}
 		case k < 14 && len(c.Filters) > 2:
 			i := g.R.Intn(len(c.Filters))
 			c.Filters = append(c.Filters[:i], c.Filters[i+1:]...)
